@@ -687,3 +687,151 @@ PROPS["C04"] = {
         "labels are valid label names whatever the stack flag (I13); a label marks a statement of at least one word",
     ],
 }
+
+
+# ---------------------------------------------------------------- C18
+_C18_WORDS = ("push", "pop", "call", "rets")
+
+
+def c18_compare(rq, impl, model):
+    """Model / spec comparison plus predicates checked directly on the implementation:
+    F18/R18 answers are `<flag on> ## <flag off>`."""
+    out = cmp_default(rq, impl, model)
+    f = rq.split(" ")
+    if f[0] == "F18" and " ## " in impl:
+        on, off = impl.split(" ## ", 1)
+        try:
+            text = "" if f[2] == "-" else bytes.fromhex(f[2]).decode("utf-8", "replace")
+        except ValueError:
+            text = None
+        want = None
+        if f[1] == "same" and on != off:
+            want = "no stack mnemonic in token position (by construction): both settings must give the same result"
+        elif (f[1] == "reject" and not off.startswith("diag lexStack ")
+              and not on.startswith("diag lex") and not on.startswith("diag preproc")):
+            # with the flag on the lexer and the preprocessor got through the whole text, mnemonic included
+            want = "a stack mnemonic in token position (by construction): flag off must give diag lexStack"
+        elif text is not None and on != off and not any(w in text.lower() for w in _C18_WORDS):
+            want = "none of push/pop/call/rets occurs in the text at all: both settings must give the same result"
+        elif on != off and not off.startswith("diag lexStack "):
+            want = "the flag may only turn a result into diag lexStack"
+        if want:
+            out.append({"kind": "impl-vs-spec", "request": rq, "impl": impl, "model": model, "spec": want})
+    elif f[0] == "R18" and " ## " in impl:
+        on, off = impl.split(" ## ", 1)
+        if on != off and not off.startswith("exit 1 "):
+            out.append({"kind": "impl-vs-spec", "request": rq, "impl": impl, "model": model,
+                        "spec": "the flag may only turn a run into `exit 1` at an opcode-0xD word"})
+    elif f[0] == "P18":
+        # rejected for the missing feature => the diagnostic names it (the model says when)
+        pass
+    return out
+
+
+def c18_classify(rq, impl):
+    f = rq.split(" ")
+    if f[0] in ("F18", "R18"):
+        parts = impl.split(" ## ")
+        def cls(p):
+            w = p.split(" ")
+            return (w[0] + ":" + w[1]) if w[0] in ("diag", "exit", "loadexit") and len(w) > 1 else w[0]
+        if len(parts) == 2:
+            a, b = cls(parts[0]), cls(parts[1])
+            return "%s:%s" % (f[0], a if parts[0] == parts[1] else a + "|" + b) if a != b or parts[0] == parts[1] \
+                else "%s:%s|differs" % (f[0], a)
+        return f[0] + ":" + impl[:20]
+    if f[0] == "P18":
+        st = impl.split(" ")[0]
+        named = impl.rsplit(" ", 1)[-1]
+        return "P18:%s:%s:%s:%s" % (f[1], "noflag" if f[2] == "N" else "flag", st, named)
+    return f[0]
+
+
+def c18_nontrivial(rq, impl):
+    f = rq.split(" ")
+    if f[0] == "F18":
+        return not rq.endswith(" -")
+    if f[0] == "R18":
+        # executed at least one instruction under some setting, or was refused by the loader
+        for part in impl.split(" ## "):
+            if part.startswith("load"):
+                return True
+            try:
+                if int(part.rsplit("|", 1)[1].split()[0]) > 0:
+                    return True
+            except Exception:
+                return True
+        return False
+    return True
+
+
+def c18_group(d):
+    f = d["request"].split(" ")
+    if f[0] == "F18":
+        return "asm-" + f[1]
+    if f[0] == "P18":
+        return "proc-" + f[1] + "-" + f[2]
+    return "run"
+
+
+PROPS["C18"] = {
+    "theorems": [
+        "Lace.C18.flag_dichotomy",
+        "Lace.C18.flag_off_rejects",
+        "Lace.C18.flag_off_diag_inside",
+        "Lace.C18.flag_irrelevant_asm",
+        "Lace.C18.flag_irrelevant_text",
+        "Lace.C18.flag_off_rejects_iff",
+        "Lace.C18.flag_irrelevant_vm",
+        "Lace.C18.flag_off_opD_exit1",
+        "Lace.C18.flag_on_executes",
+        "Lace.C18.flag_matters_on_opD",
+        "Lace.C18.flag_irrelevant_run",
+        "Lace.C18.flag_off_run_opD_exit1",
+        "Lace.C18.flag_on_run_eq_ref",
+        "Lace.C18.fetched_words_per_fetch",
+        "Lace.C18.features_from_str_spec",
+        "Lace.C18.features_from_str_err",
+        "Lace.C18.split_comma_spec",
+        "Lace.C18.flag_irrelevant_cli",
+        "Lace.C18.flag_off_cli_rejects",
+        "Lace.C18.flag_position_irrelevant",
+        "Lace.C02.execute_eq_isa",
+        "Lace.C02.stack_off_stops",
+    ],
+    "needs_bin": True,
+    "compare": c18_compare,
+    "classify": c18_classify,
+    "nontrivial": c18_nontrivial,
+    "group": c18_group,
+    "rule": ("every case is observed under BOTH settings of the flag. F18 (in-process assembler): grammar-derived programs "
+             "without the four mnemonics; the same with the mnemonics inside comments and strings, with near-miss labels "
+             "(pushy, xpop, r1rets, call_ ...), with everything after .end; with push/pop/call/rets inserted as an "
+             "instruction, as a label definition (`PuSh .fill x1`, `pop: halt`) or as a label reference (`lea r0 pop`, "
+             "`br PUSH`, `.fill call`) in random letter case under random layouts; texts with other errors; plus a corpus. "
+             "The answer carries both outcomes; the spec line is computed from the flag-ON token stream (no mnemonic token "
+             "=> off = on; a mnemonic token => off = diag lexStack); checked directly on the implementation: the "
+             "generator's expectation (same / reject), 'none of the four words occurs in the text => same result', and "
+             "'the flag can only turn a result into diag lexStack'. R18 (in-process from_raw + run under a step budget): "
+             "images built around raw opcode-0xD words (reached; behind HALT; branched over; loaded as data; stored into "
+             "the instruction stream and then executed; present but overwritten before being reached; in loops; PUSH/POP "
+             "pairs, CALL/RETS, junk in unused bits), the structured terminating programs and random images of C03; spec "
+             "line: the flag-off run fetches no 0xD word => off = on = reference machine, otherwise off = exit 1. "
+             "P18 (process mode): `lace check|compile|run f.asm [--minimal]` with the option absent, `-f stack`, `-f \"\"`, "
+             "`-f stack,stack`, `-f foo`, `--features stack`, `--features=stack`, `-fstack`, `-f ,stack,`, `-f Stack` ..., and the option written BEFORE the "
+             "subcommand (`lace -f stack run f.asm`: spec line = what the same option does after it) or both before and after "
+             "on programs with / without the mnemonics and with raw 0xD words reached / not reached / stored at run "
+             "time: exit status, stdout, bytes of out.lc3, and whether stderr contains the word `stack` when the "
+             "status is 1. Non-trivial: every non-empty text; every run that executes an instruction or is refused by "
+             "the loader; every spawn."),
+    "trusted": [
+        "clap's handling of -f/--features (value_parser = Features::from_str, default value rendered by Display, exit status 2 on a parse error) and real file-system semantics",
+        "the word `stack` on stderr is searched in the rendered miette report / the VM's message; the rendering itself is not modelled (generated sources never contain that word)",
+        "Lean re-implementations of Rust integer formatting and from_str_radix, as for C03/C05",
+    ],
+    "assumptions": [
+        "'contains one of the four mnemonics' is made precise with lace's own lexer: the flag-on token stream contains a token of kind push/pop/call/rets (any letter case, instruction or label position; comments, strings and text after .end are not tokens)",
+        "'never executes opcode 0xD' is stated on the words the flag-off run fetches, as memory is at fetch time",
+        "`step out` availability in the debugger (debugger/mod.rs:364-381) is not covered here",
+    ],
+}
